@@ -8,6 +8,7 @@ import (
 	"net/http"
 	"net/http/httptest"
 	"strings"
+	"sync"
 	"time"
 
 	gohlslib "github.com/bluenviron/gohlslib/v2"
@@ -20,21 +21,23 @@ import (
 // ---- input of one muxer run ----
 
 type muxCase struct {
-	Kind     string  `json:"kind"` // h264 av1 aac opus
-	Rate     int64   `json:"rate"`
-	Constant bool    `json:"constant"` // all deltas equal (the property applies)
-	T        int64   `json:"t"`        // the constant delta (ticks) when Constant
-	D0       int64   `json:"d0"`       // dts of the first write
-	Deltas   []int64 `json:"deltas,omitempty"` // delta to the next write, per write (omitted in JSON when Constant: all T)
-	Flags    []int   `json:"flags"`    // per write: 0 plain, 1 random access, 3 random access + changed parameters
-	PartMin  int64   `json:"part_min"` // as given to the Muxer (0 = default)
-	SegMin   int64   `json:"seg_min"`
-	SegCount int     `json:"seg_count"`
-	Audio2   bool    `json:"audio2"` // video-led: add a non-leading AAC track and feed it
-	A2Rate   int64   `json:"a2_rate,omitempty"`  // its sample rate (0 = 48000)
-	A2Batch  int     `json:"a2_batch,omitempty"` // access units per WriteMPEG4Audio call on it (0 = 1)
-	Batch    []int   `json:"batch,omitempty"`    // AAC-led: access units per WriteMPEG4Audio call (sums to len(Flags)); empty = one per call
-	PMClass  string  `json:"pm_class"`
+	Kind       string  `json:"kind"` // h264 av1 aac opus
+	Rate       int64   `json:"rate"`
+	Constant   bool    `json:"constant"`         // all deltas equal (the property applies)
+	T          int64   `json:"t"`                // the constant delta (ticks) when Constant
+	D0         int64   `json:"d0"`               // dts of the first write
+	Deltas     []int64 `json:"deltas,omitempty"` // delta to the next write, per write (omitted in JSON when Constant: all T)
+	Flags      []int   `json:"flags"`            // per write: 0 plain, 1 random access, 3 random access + changed parameters
+	PartMin    int64   `json:"part_min"`         // as given to the Muxer (0 = default)
+	SegMin     int64   `json:"seg_min"`
+	SegCount   int     `json:"seg_count"`
+	Audio2     bool    `json:"audio2"`                // video-led: add a non-leading AAC track and feed it
+	AudioFirst bool    `json:"audio_first,omitempty"` // declare the non-leading AAC track BEFORE the video track
+	A2Rate     int64   `json:"a2_rate,omitempty"`     // its sample rate (0 = 48000)
+	A2Batch    int     `json:"a2_batch,omitempty"`    // access units per WriteMPEG4Audio call on it (0 = 1)
+	Batch      []int   `json:"batch,omitempty"`       // AAC-led: access units per WriteMPEG4Audio call (sums to len(Flags)); empty = one per call
+	PMClass    string  `json:"pm_class"`
+	Shape      string  `json:"shape,omitempty"` // generator\'s history shape (label only)
 }
 
 // MarshalJSON drops the deltas of a constant-duration case; fill restores them.
@@ -116,9 +119,23 @@ type muxObs struct {
 
 	// for the oracle: every playlist in order, with the number of writes done and the number
 	// of "part duration changed" reports so far
-	playlists []viewObs
-	errsAt    []int64
-	body      map[int64]string
+	streams []*plSeq // [0] = the leading stream, then the rendition (non-leading AAC) if any
+	body    map[int64]string
+}
+
+// plSeq is every media playlist of one stream in the order it was served: one after each Write*
+// call and, between them, those that were served WHILE OnEncodeError was running (InCallback).
+type plSeq struct {
+	ID         string
+	Views      []viewObs
+	ErrsAt     []int64 // "part duration changed" reports so far
+	InCallback []bool
+}
+
+func (q *plSeq) add(v viewObs, errs int64, inCallback bool) {
+	q.Views = append(q.Views, v)
+	q.ErrsAt = append(q.ErrsAt, errs)
+	q.InCallback = append(q.InCallback, inCallback)
 }
 
 // ---- bit writer for the SPS ----
@@ -257,9 +274,35 @@ func runMuxer(c *muxCase, nviews []int) (*muxObs, error) {
 	if c.Audio2 && (c.Kind == "h264" || c.Kind == "av1") {
 		audio = &gohlslib.Track{Codec: &codecs.MPEG4Audio{Config: mpeg4audio.Config{
 			Type: 2, SampleRate: int(a2rate), ChannelCount: 2}}, ClockRate: int(a2rate)}
-		tracks = append(tracks, audio)
+		if c.AudioFirst {
+			tracks = []*gohlslib.Track{audio, lead}
+		} else {
+			tracks = append(tracks, audio)
+		}
 	}
-	m := &gohlslib.Muxer{
+	// stream ids follow the declaration order
+	streamID := "video1"
+	if c.Kind == "aac" || c.Kind == "opus" {
+		streamID = "audio1"
+	}
+	ids := []string{streamID}
+	if audio != nil {
+		if c.AudioFirst {
+			streamID = "video2"
+			ids = []string{streamID, "audio1"}
+		} else {
+			ids = append(ids, "audio2")
+		}
+	}
+	for _, id := range ids {
+		obs.streams = append(obs.streams, &plSeq{ID: id})
+	}
+	var m *gohlslib.Muxer
+	hasContent := false // a media playlist request would not block
+	writesDone := int64(0)
+	var cbMutex sync.Mutex
+	var pending []chan struct{} // requests started inside OnEncodeError
+	m = &gohlslib.Muxer{
 		Variant:            gohlslib.MuxerVariantLowLatency,
 		Tracks:             tracks,
 		SegmentCount:       c.SegCount,
@@ -268,6 +311,40 @@ func runMuxer(c *muxCase, nviews []int) (*muxObs, error) {
 		OnEncodeError: func(err error) {
 			if strings.HasPrefix(err.Error(), "part duration changed") {
 				obs.Errors++
+				// a client asks for every media playlist right now. On the pinned code the request
+				// waits for the muxer mutex, which the writer holds until the new part target is
+				// stored, so nothing comes back within the bounded wait (a direct call would
+				// deadlock); whatever is served while the callback runs goes to the oracle.
+				if hasContent {
+					done := make(chan struct{})    // closed when the callback returns
+					fetched := make(chan struct{}) // closed when the requests have been served
+					pending = append(pending, fetched)
+					errs := obs.Errors
+					go func() {
+						defer close(fetched)
+						for i, id := range ids {
+							code, body := get(m, id+"_stream.m3u8")
+							select {
+							case <-done: // the callback has returned: an ordinary request, not recorded
+								return
+							default:
+							}
+							if code != http.StatusOK {
+								continue
+							}
+							if pl, e := parsePlaylist(string(body)); e == nil {
+								cbMutex.Lock()
+								obs.streams[i].add(viewObs{K: writesDone, PL: pl}, errs, true)
+								cbMutex.Unlock()
+							}
+						}
+					}()
+					select {
+					case <-fetched:
+					case <-time.After(60 * time.Millisecond):
+					}
+					close(done)
+				}
 			} else {
 				obs.OtherErrs = append(obs.OtherErrs, err.Error())
 			}
@@ -277,12 +354,6 @@ func runMuxer(c *muxCase, nviews []int) (*muxObs, error) {
 		return nil, fmt.Errorf("Start: %w", err)
 	}
 	defer m.Close()
-
-	streamID := "video1"
-	if c.Kind == "aac" || c.Kind == "opus" {
-		streamID = "audio1"
-	}
-	plPath := streamID + "_stream.m3u8"
 
 	viewAt := map[int]bool{}
 	for _, k := range nviews {
@@ -385,10 +456,15 @@ func runMuxer(c *muxCase, nviews []int) (*muxObs, error) {
 				audioNext += 1024 * int64(a2batch)
 			}
 		}
+		for _, ch := range pending { // requests started inside OnEncodeError are served once the call returns
+			<-ch
+		}
+		pending = nil
 		for i := 0; i < b; i++ {
 			dts += c.Deltas[k+i]
 		}
 		k += b
+		writesDone = int64(k)
 		nk := int64(k)
 		lastCall := ci == len(sizes)-1
 
@@ -452,19 +528,23 @@ func runMuxer(c *muxCase, nviews []int) (*muxObs, error) {
 
 		// the media playlist (only once it would not block)
 		if l.SegmentCount >= 1 {
-			code, body := get(m, plPath)
-			if code != http.StatusOK {
-				return nil, fmt.Errorf("playlist status %d after write %d", code, k)
-			}
-			pl, e := parsePlaylist(string(body))
-			if e != nil {
-				return nil, fmt.Errorf("playlist after write %d: %w", k, e)
-			}
-			obs.playlists = append(obs.playlists, viewObs{K: nk, PL: pl})
-			obs.errsAt = append(obs.errsAt, obs.Errors)
-			if viewAt[ci] || lastCall {
-				obs.Views = append(obs.Views, viewObs{K: nk, PL: pl})
-				obs.body[nk] = string(body)
+			hasContent = true
+			for i, id := range ids {
+				code, body := get(m, id+"_stream.m3u8")
+				if code != http.StatusOK {
+					return nil, fmt.Errorf("playlist %s: status %d after write %d", id, code, k)
+				}
+				pl, e := parsePlaylist(string(body))
+				if e != nil {
+					return nil, fmt.Errorf("playlist %s after write %d: %w", id, k, e)
+				}
+				cbMutex.Lock()
+				obs.streams[i].add(viewObs{K: nk, PL: pl}, obs.Errors, false)
+				cbMutex.Unlock()
+				if i == 0 && (viewAt[ci] || lastCall) {
+					obs.Views = append(obs.Views, viewObs{K: nk, PL: pl})
+					obs.body[nk] = string(body)
+				}
 			}
 		}
 
